@@ -176,7 +176,7 @@ Proof.
 Qed.
 
 (* ---------- sums over the pod list ---------- *)
-Definition setp (p : pod) (b : bool) : pod := mkPod (p_id p) (p_quota p) (p_req p) (p_keys p) (p_np p) b (p_bound p).
+Definition setp (p : pod) (b : bool) : pod := mkPod (p_id p) (p_quota p) (p_req p) (p_keys p) (p_np p) b (p_bound p) (p_term p).
 
 Lemma find_pod_none id ps : find_pod id ps = None -> ~ In id (map p_id ps).
 Proof.
@@ -234,7 +234,7 @@ Lemma shareq_setp sel qs i p b d :
   = if sel p && b && mem_id i (pidsq qs (p_quota p)) then vget (deltaq qs p) d else 0.
 Proof.
   intro Hs. unfold shareq, setp. cbn [p_assigned p_quota]. unfold deltaq. cbn [p_quota p_req].
-  rewrite (Hs (mkPod (p_id p) (p_quota p) (p_req p) (p_keys p) (p_np p) b (p_bound p)) p eq_refl). reflexivity.
+  rewrite (Hs (mkPod (p_id p) (p_quota p) (p_req p) (p_keys p) (p_np p) b (p_bound p) (p_term p)) p eq_refl). reflexivity.
 Qed.
 Lemma sel_all_np x y : p_np x = p_np y -> sel_all x = sel_all y.
 Proof. reflexivity. Qed.
@@ -430,6 +430,27 @@ Proof.
   - destruct (p_np p); cbn [andb negb]; split; lia.
 Qed.
 
+(* a status update (node name, phase) changes no sum *)
+Lemma expq_set_status sel qs ps id b t i d :
+  (forall x, sel (with_status x b t) = sel x) ->
+  expq sel qs (set_status id b t ps) i d = expq sel qs ps i d.
+Proof.
+  intro Hs. unfold expq, set_status. rewrite map_map. f_equal. apply map_ext. intro x.
+  destruct (p_id x =? id); [|reflexivity]. unfold shareq. rewrite Hs. reflexivity.
+Qed.
+Lemma EXQ_set_status qs ps id b t : EXQ qs ps -> EXQ qs (set_status id b t ps).
+Proof.
+  intros H q Hq d. rewrite !expq_set_status by reflexivity. exact (H q Hq d).
+Qed.
+Lemma find_pod_set_status id b t ps p :
+  find_pod id ps = Some p -> find_pod id (set_status id b t ps) = Some (with_status p b t).
+Proof.
+  induction ps as [|x r IH]; cbn [find_pod set_status map]; [discriminate|].
+  destruct (p_id x =? id) eqn:E.
+  - intro H. injection H as <-. cbn [with_status p_id]. rewrite E. reflexivity.
+  - rewrite E. exact IH.
+Qed.
+
 (* a new, unassigned pod changes no sum *)
 Lemma EXQ_pod_add qs ps p : p_assigned p = false -> EXQ qs ps -> EXQ qs (ps ++ [p]).
 Proof.
@@ -591,6 +612,153 @@ Proof.
     rewrite upd_used_ids. apply Hq. exact Hx0.
 Qed.
 
+(* ---------- restart ---------- *)
+Lemma keepsd_usage st1 : keepsd (usage_fn st1).
+Proof. split; [apply keeps_usage_fn|reflexivity]. Qed.
+
+Lemma shareq_restart sel qs i p d :
+  (forall x y, p_np x = p_np y -> sel x = sel y) ->
+  shareq sel qs i (restart_pod p) d
+  = if sel p && replay_flag p && mem_id i (pidsq qs (p_quota p)) then vget (deltaq qs p) d else 0.
+Proof.
+  intro Hs. unfold shareq, restart_pod. cbn [p_assigned p_quota]. unfold deltaq. cbn [p_quota p_req].
+  rewrite (Hs (mkPod (p_id p) (p_quota p) (p_req p) (p_keys p) (p_np p) (replay_flag p) (p_bound p) (p_term p)) p eq_refl).
+  reflexivity.
+Qed.
+
+(* the state a restart produces, as pointwise updates of the quota table *)
+Definition restart_fn (st : state) : quota -> quota :=
+  let ps := map restart_pod (pods st) in
+  let qs1 := taint_ids (fresh_ids st) (quotas st) in
+  let st1 := mkState qs1 ps (total st) in
+  let qs2 := map (usage_fn st1) qs1 in
+  fun q => refresh_fn (map q_id qs2) qs2 ps (usage_fn st1 (taint_fn (fresh_ids st) q)).
+Lemma restart_quotas cfg st :
+  quotas (fst (step cfg st ORestart)) = map (restart_fn st) (quotas st).
+Proof.
+  unfold step, restart_fn. cbn [fst quotas]. unfold refresh, taint_ids. rewrite !map_map. reflexivity.
+Qed.
+Lemma keepsd_restart_fn st : keepsd (restart_fn st).
+Proof.
+  unfold restart_fn. cbv zeta. split.
+  - apply keeps_compose; [apply keeps_refresh_fn|]. apply keeps_compose; [apply keeps_usage_fn|apply keeps_taint_fn].
+  - intro q. destruct (keepsd_refresh (map q_id (map (usage_fn (mkState (taint_ids (fresh_ids st) (quotas st)) (map restart_pod (pods st)) (total st))) (taint_ids (fresh_ids st) (quotas st))))
+                         (map (usage_fn (mkState (taint_ids (fresh_ids st) (quotas st)) (map restart_pod (pods st)) (total st))) (taint_ids (fresh_ids st) (quotas st)))
+                         (map restart_pod (pods st))) as [[_ Kd] _].
+    rewrite Kd. destruct (keepsd_taint (fresh_ids st)) as [[_ Kt] _]. cbn. apply Kt.
+Qed.
+
+(* used after a restart is the from-scratch sum over the replayed pods *)
+Lemma restart_used st q d :
+  vget (q_used (restart_fn st q)) d = expq sel_all (quotas st) (map restart_pod (pods st)) (q_id q) d
+  /\ vget (q_npused (restart_fn st q)) d = expq p_np (quotas st) (map restart_pod (pods st)) (q_id q) d.
+Proof.
+  unfold restart_fn. cbv zeta.
+  set (ps := map restart_pod (pods st)). set (tids := fresh_ids st).
+  set (st1 := mkState (taint_ids tids (quotas st)) ps (total st)).
+  destruct (keepsd_refresh (map q_id (map (usage_fn st1) (taint_ids tids (quotas st))))
+                           (map (usage_fn st1) (taint_ids tids (quotas st))) ps) as [_ U].
+  destruct (U (usage_fn st1 (taint_fn tids q))) as [-> ->].
+  unfold usage_fn. cbn [q_used q_npused set_usage]. rewrite !vget_vmk.
+  rewrite exp_used_expq, exp_npused_expq. unfold st1. cbn [quotas pods]. unfold taint_ids.
+  rewrite !(expq_map _ (taint_fn tids) (quotas st) ps _ d (proj1 (keepsd_taint tids))).
+  destruct (keeps_taint_fn tids q) as (-> & _). split; reflexivity.
+Qed.
+
+Lemma restart_pods_ids ps : map p_id (map restart_pod ps) = map p_id ps.
+Proof. rewrite map_map. apply map_ext. reflexivity. Qed.
+
+Lemma EXI_restart cfg wf st : EXI wf st -> EXI wf (fst (step cfg st ORestart)).
+Proof.
+  intros [[Ho Hn Hq] _]. pose proof (restart_quotas cfg st) as Eq.
+  assert (Ep : pods (fst (step cfg st ORestart)) = map restart_pod (pods st)) by reflexivity.
+  destruct (keepsd_restart_fn st) as [K Kd]. split.
+  - constructor.
+    + rewrite Eq. intros q Hin. apply in_map_iff in Hin. destruct Hin as (x & <- & Hx).
+      destruct (K x) as (-> & -> & _). apply Ho. exact Hx.
+    + rewrite Ep, restart_pods_ids. exact Hn.
+    + rewrite Ep, Eq, (map_ids _ _ K). intros x Hx. apply in_restart_pods in Hx.
+      destruct Hx as (x0 & Hx0 & _ & _ & ->). apply Hq. exact Hx0.
+  - intros _. rewrite Eq, Ep. intros q' Hq' d. apply in_map_iff in Hq'. destruct Hq' as (q & <- & Hqin).
+    rewrite !(expq_map _ (restart_fn st) (quotas st) _ _ d (keepsd_restart_fn st)).
+    destruct (K q) as (-> & _). apply restart_used.
+Qed.
+
+(* an update of the usage figures that stays within max wherever something is still promised *)
+Lemma INV_set_usage cfg wf f g qs ps tot :
+  INV cfg wf (mkState qs ps tot) ->
+  (wf = true -> forall q, In q qs -> q_taint q = false -> used_le_max q (f q)) ->
+  INV cfg wf (mkState (map (fun q => set_usage q (f q) (g q)) qs) ps tot).
+Proof.
+  intros I Hnew. destruct I as [Hnd Hcr Hpar Hpex Hus Hok Hpo]. cbn in *.
+  set (h := fun q => set_usage q (f q) (g q)).
+  assert (K : keeps h) by apply keeps_set_usage.
+  constructor; cbn.
+  - rewrite (map_ids _ _ K). exact Hnd.
+  - apply forall_map; [exact Hcr|]. intros q _ Hq. exact Hq.
+  - apply par_map; assumption.
+  - apply pex_map; assumption.
+  - intro Hw. apply forall_map; [exact (Hus Hw)|]. intros q Hin _ Ht. exact (Hnew Hw q Hin Ht).
+  - intro Hw. apply forall_map; [exact (Hok Hw)|]. intros q _ Hq. exact Hq.
+  - exact Hpo.
+Qed.
+
+Lemma in_fresh_ids st p i :
+  In p (pods st) -> p_assigned p = false -> replay_flag p = true ->
+  In i (map q_id (path st (p_quota p))) -> In i (fresh_ids st).
+Proof.
+  intros Hp Ha Hr Hi. unfold fresh_ids. apply in_flat_map. exists p. split; [exact Hp|].
+  rewrite Ha, Hr. exact Hi.
+Qed.
+
+(* Restart keeps the invariant: a quota that is still promised something is charged only for pods
+   that were assigned (admitted) before, so its new used is at most its old one. *)
+Lemma INV_restart cfg wf st : INV cfg wf st -> EXI wf st -> INV cfg wf (fst (step cfg st ORestart)).
+Proof.
+  intros I X. unfold step. cbn [fst]. destruct st as [qs0 ps tot]. cbn [quotas pods total].
+  set (st := mkState qs0 ps tot) in *.
+  set (ps' := map restart_pod ps). set (tids := fresh_ids st).
+  set (st1 := mkState (taint_ids tids qs0) ps' tot).
+  assert (Hps' : wf = true -> forall x, In x ps' -> pod_okb (p_req x) (p_keys x) = true).
+  { intro W. apply nonneg_restart_pods. exact (inv_pods _ _ _ I W). }
+  assert (I1 : INV cfg wf st1).
+  { apply (INV_pods _ _ _ ps); [apply INV_taint; exact I|exact Hps']. }
+  apply INV_refresh with (ps := ps'); [|exact Hps'].
+  apply (INV_set_usage cfg wf (fun q => vmk (exp_used st1 q)) (fun q => vmk (exp_npused st1 q))); [exact I1|].
+  intros W q1 Hq1 Ht d Hd. subst wf. rewrite vget_vmk.
+  unfold taint_ids in Hq1. apply in_map_iff in Hq1. destruct Hq1 as (q & <- & Hq).
+  unfold taint_fn in Ht, Hd |- *.
+  destruct (mem_id (q_id q) tids) eqn:Em; [discriminate Ht|].
+  rewrite exp_used_expq. unfold st1. cbn [quotas pods]. unfold taint_ids.
+  rewrite (expq_map _ (taint_fn tids) qs0 ps' _ d (proj1 (keepsd_taint tids))).
+  pose proof (inv_used _ _ _ I eq_refl q Hq Ht d Hd) as Hu.
+  destruct X as [_ E]. destruct (E eq_refl q Hq d) as [Eu _]. cbn [quotas pods] in Eu.
+  rewrite Eu in Hu. eapply Z.le_trans; [|exact Hu].
+  unfold expq, ps'. rewrite map_map. apply sumZ_map_le. intros p Hp.
+  rewrite (shareq_restart sel_all qs0 _ p d sel_all_np). unfold shareq, sel_all. cbn [andb].
+  pose proof (pods_pos cfg st I p Hp d) as Hpos.
+  change (quotas st) with qs0 in *.
+  destruct (p_assigned p) eqn:Ea; cbn [andb].
+  - destruct (replay_flag p); cbn [andb]; destruct (mem_id (q_id q) (pidsq qs0 (p_quota p))); lia.
+  - destruct (replay_flag p) eqn:Er; cbn [andb]; [|lia].
+    destruct (mem_id (q_id q) (pidsq qs0 (p_quota p))) eqn:Emm; [|lia].
+    exfalso. apply mem_id_spec in Emm.
+    assert (Hin : In (q_id q) tids).
+    { apply (in_fresh_ids st p); auto. }
+    apply mem_id_spec in Hin. congruence.
+Qed.
+
+Lemma restart_keeps : forall cfg wf st,
+  INV cfg wf st -> EXI wf st ->
+  INV cfg wf (fst (step cfg st ORestart)) /\ EXI wf (fst (step cfg st ORestart)).
+Proof. intros cfg wf st I X. split; [exact (INV_restart cfg wf st I X)|exact (EXI_restart cfg wf st X)]. Qed.
+
+Theorem INV_step cfg wf st sn o :
+  INV cfg wf st -> FL wf st sn -> EXI wf st -> INV cfg (wf && op_okb st sn o) (fst (step cfg st o)).
+Proof.
+  intros I F X. apply INV_step_gen; [exact I|exact F|]. intros _. apply INV_restart; assumption.
+Qed.
+
 Theorem EXI_step cfg wf st sn o :
   INV cfg wf st -> EXI wf st -> EXI (wf && op_okb st sn o) (fst (step cfg st o)).
 Proof.
@@ -599,8 +767,8 @@ Proof.
   assert (Xw : EXI (wf && op_okb st sn o) st) by (apply (EXI_weaken wf); assumption).
   assert (Iw : INV cfg (wf && op_okb st sn o) st) by (apply (INV_weaken _ wf); assumption).
   (* reduce to wf' = true / false uniformly: in the false case only STR matters *)
-  destruct o as [id parent lend decl mx mindecl mn w|id mx mindecl mn w|id qn np req keys|id|id|id|id|id|t
-                 |id qn np req keys|id|id|]; unfold step, apply_attempt; cbv zeta.
+  destruct o as [id parent lend decl mx mindecl mn w|id mx mindecl mn w|id qn np req keys term|id|id|id|id|id|t
+                 |id qn np req keys term|id|id|id term bind| |]; unfold step, apply_attempt; cbv zeta.
   - (* quota add *)
     destruct (id <=? 0) eqn:E0; cbn [orb fst]; [exact Xw|].
     destruct (find_quota id (quotas st)) eqn:Ef; cbn [orb fst]; [exact Xw|].
@@ -696,7 +864,14 @@ Proof.
     destruct (find_pod id (pods st)) eqn:Efp; cbn [fst]; [exact Xw|].
     destruct (find_quota qn (quotas st)) as [q0|] eqn:Efq; cbn [fst]; [|exact Xw].
     destruct st as [qs0 ps tot]. cbn [quotas pods total] in *.
-    set (p := mkPod id qn req keys np false true).
+    destruct term; cbn [fst].
+    { apply EXI_touch. destruct Xw as [[Ho Hn Hq] E]. cbn [quotas pods] in *. split.
+      + constructor; cbn [quotas pods]; [exact Ho| |].
+        * rewrite map_app. cbn. apply NoDup_app_single; [exact Hn|apply find_pod_none; exact Efp].
+        * intros x Hx. apply in_app_or in Hx. destruct Hx as [Hx|[<-|[]]]; [apply Hq; exact Hx|].
+          cbn. apply find_quota_some in Efq. destruct Efq as [Hin <-]. apply in_map. exact Hin.
+      + intro W. apply EXQ_pod_add; [reflexivity|exact (E W)]. }
+    set (p := mkPod id qn req keys np false true false).
     apply EXI_charge; [|cbn [pods]; apply find_pod_app_new; [exact Efp|reflexivity]|reflexivity].
     apply EXI_touch. apply EXI_taint with (ids := map q_id (path (mkState qs0 ps tot) qn)) in Xw.
     destruct Xw as [[Ho Hn Hq] E]. cbn [quotas pods] in *. split.
@@ -743,7 +918,7 @@ Proof.
       { destruct Xw as [[Ho Hn Hq] E]. cbn [quotas pods] in *. split.
         - apply S'; [reflexivity|exact Ho].
         - intro W. cbn [quotas pods]. apply (EXQ_set_np_unassigned qs0 ps id p Hn Ef Ea (E W)). }
-      destruct (p_bound p); cbn [fst].
+      destruct (p_bound p && negb (p_term p)); cbn [fst].
       * apply EXI_charge.
         -- apply EXI_touch. apply EXI_taint. exact X1.
         -- cbn [pods p_id flip_np]. rewrite Hid. clear - Ef.
@@ -753,6 +928,26 @@ Proof.
            ++ rewrite E. apply IH. exact Ef.
         -- exact Ea.
       * apply EXI_touch. exact X1.
+  - (* pod status *)
+    destruct (find_pod id (pods st)) as [p|] eqn:Ef; cbn [fst]; [|exact Xw].
+    pose proof (find_pod_some _ _ _ Ef) as [Hpin Hid].
+    destruct st as [qs0 ps tot]. cbn [quotas pods total] in *.
+    set (b := p_bound p || bind).
+    assert (X1 : EXI (wf && op_okb (mkState qs0 ps tot) sn (OPodStatus id term bind))
+                     (mkState qs0 (set_status id b term ps) tot)).
+    { destruct Xw as [[Ho Hn Hq] E]. cbn [quotas pods] in *. split.
+      - constructor; cbn [quotas pods]; [exact Ho| |].
+        + replace (map p_id (set_status id b term ps)) with (map p_id ps); [exact Hn|].
+          unfold set_status. rewrite map_map. apply map_ext. intro x. destruct (p_id x =? id); reflexivity.
+        + intros x Hx. apply in_set_status in Hx. destruct Hx as (x0 & Hx0 & _ & _ & ->). apply Hq. exact Hx0.
+      - intro W. cbn [quotas pods]. apply EXQ_set_status. exact (E W). }
+    destruct (negb (p_assigned p) && b && negb term) eqn:Ec; cbn [fst]; [|exact X1].
+    apply EXI_charge.
+    + apply EXI_taint. exact X1.
+    + cbn [pods p_id with_status]. rewrite Hid. apply find_pod_set_status. exact Ef.
+    + cbn [with_status p_assigned]. destruct (p_assigned p); [discriminate Ec|reflexivity].
+  - (* restart *)
+    apply (EXI_restart cfg _ st Xw).
   - exact Xw.
 Qed.
 
@@ -762,6 +957,6 @@ Theorem ALL_step : forall cfg wf st sn o,
   /\ FL (wf && op_okb st sn o) (fst (step cfg st o)) (track cfg st sn o)
   /\ EXI (wf && op_okb st sn o) (fst (step cfg st o)).
 Proof.
-  intros cfg wf st sn o I F X. split; [exact (INV_step cfg wf st sn o I F)|].
+  intros cfg wf st sn o I F X. split; [exact (INV_step cfg wf st sn o I F X)|].
   split; [exact (FL_step cfg wf st sn o I F)|exact (EXI_step cfg wf st sn o I X)].
 Qed.
